@@ -459,6 +459,7 @@ func run(c *fw.Ctx, idx int) {
 	// round is cut short by ErrFullQueue (reported, not dropped), so it is repeated
 	// until a round completes
 	var roundLog []string
+	perCid := idx%2 == 1
 	for round := 0; ; round++ {
 		var pre []string
 		for _, pi := range rig.T.StatusAll(ctx, api.TrackerStatusUndefined) {
@@ -468,8 +469,18 @@ func run(c *fw.Ctx, idx int) {
 				}
 			}
 		}
-		_, err := rig.T.RecoverAll(ctx)
-		roundLog = append(roundLog, fmt.Sprintf("round %d: before [%s] -> err=%v", round, strings.Join(pre, " "), err))
+		var err error
+		if perCid {
+			// the recover round done item by item (PinTracker.Recover), the less used entry point
+			for ci := range cids {
+				if _, e := rig.T.Recover(ctx, cids[ci]); e != nil {
+					err = e
+				}
+			}
+		} else {
+			_, err = rig.T.RecoverAll(ctx)
+		}
+		roundLog = append(roundLog, fmt.Sprintf("round %d (per item: %v): before [%s] -> err=%v", round, perCid, strings.Join(pre, " "), err))
 		if !rig.Quiesce(ctx, 30*time.Second) {
 			c.Inconclusive("no quiescence after recover")
 			return
@@ -478,7 +489,7 @@ func run(c *fw.Ctx, idx int) {
 			break
 		}
 		if err != stateless.ErrFullQueue {
-			c.Violation("C05/recoverall-error", "RecoverAll with a healthy daemon failed: "+err.Error(), tail())
+			c.Violation("C05/recoverall-error", fmt.Sprintf("recover round (per item: %v) with a healthy daemon failed: %v", perCid, err), tail())
 			break
 		}
 		if round >= 8 {
